@@ -91,18 +91,18 @@ def CorrectArgs (G : String → Prop) (c c' : CState) (slots : List JSlot) (sc :
         slots.map (slotVal V regs') = vs ∧ EnvD c'.scopes env' s' regs'
 
 theorem toSlots_correct (G : String → Prop) (T : Expr → Prop) (w : Bool) (fuel : Nat) (IH : CorrectAt p f0 rest V P G T w fuel)
-    (hns : ∀ a, T a → isSplice a = none) :
+    (ML : MLAt G T w fuel) (hns : ∀ a, T a → isSplice a = none) :
     ∀ (args : List Expr), (∀ a, a ∈ args → T a) →
     ∀ (c c' : CState) (slots : List JSlot) (sc : Scope) (rs : List Scope) (pool : List KConst) (ps : List (List KConst))
       (n : Nat) (cur : Pos) (env env' : Env) (s s' : SS) (vs : List Value),
-      c.scopes = sc :: rs → c.pools = pool :: ps → c.lim ≤ 240 → sc.top = false →
+      c.scopes = sc :: rs → c.pools = pool :: ps → c.lim ≤ 240 → sc.top = false → (w = true → c.map.length = c.buf.length) →
       toSlots (cValue fuel) args c = some (slots, c') → evalArgs n cur env args s = .ok (vs, env') s' → EnvS G c.scopes env s.boxes.size sc.ra →
       CorrectArgs p f0 rest V P G c c' slots sc rs pool ps env env' s s' vs := by
   intro args
   induction args with
   | nil =>
-    intro _ c c' slots sc rs pool ps n cur env env' s s' vs hs hp hl htop hc hsem hE
-    clear hl htop
+    intro _ c c' slots sc rs pool ps n cur env env' s s' vs hs hp hl htop hm hc hsem hE
+    clear hl htop hm
     simp only [toSlots, Option.some.injEq, Prod.mk.injEq] at hc
     obtain ⟨h1, h2⟩ := hc
     obtain ⟨e1, e2, e3⟩ := evalArgs_nil_inv n cur env env' s s' vs hsem
@@ -115,7 +115,7 @@ theorem toSlots_correct (G : String → Prop) (T : Expr → Prop) (w : Bool) (fu
       refine ⟨k.regs, ?_, rfl, fun _ _ => rfl, rfl, hD⟩
       rw [cfg_eta k _ hkw hka]; exact Reach.refl _ _
   | cons a as ih =>
-    intro hT c c' slots sc rs pool ps n cur env env' s s' vs hs hp hl htop hc hsem hE
+    intro hT c c' slots sc rs pool ps n cur env env' s s' vs hs hp hl htop hm hc hsem hE
     simp only [toSlots, Option.bind_eq_bind, Option.bind_eq_some_iff, Prod.exists, Option.pure_def, Option.some.injEq, Prod.mk.injEq] at hc
     obtain ⟨sl1, c1, hx, ss, c2, hrest, hsl, hc2⟩ := hc
     subst hsl
@@ -124,13 +124,15 @@ theorem toSlots_correct (G : String → Prop) (T : Expr → Prop) (w : Bool) (fu
     obtain ⟨n2, v1, env1, s1, vs', hn, he1, he2, hvs⟩ := evalArgs_cons_inv n cur env env' a as s s' vs (hns a (hT a (by simp))) hsem
     subst hvs
     obtain ⟨ra1, ns1, more1, seg1, segm1, hc1, pv1, mono1, max1, sok1, bx1, es1, nf1, vm1⟩ :=
-      IH a {} c c1 sl1 sc rs pool ps n2 cur env env1 s s1 v1 rfl rfl hs hp hl htop (hT a (by simp)) hx he1 hE
+      IH a {} c c1 sl1 sc rs pool ps n2 cur env env1 s s1 v1 rfl rfl hs hp hl htop hm (hT a (by simp)) hx he1 hE
+    have hm1 : w = true → c1.map.length = c1.buf.length := fun hw =>
+      ML hw a {} c c1 sl1 sc rs pool ps env s.boxes.size rfl rfl hs hp htop (hT a (by simp)) hE hx (hm hw)
     have hs1 : c1.scopes = { sc with ra := ra1, syms := sc.syms ++ ns1 } :: rs := by rw [hc1]
     have hp1 : c1.pools = (pool ++ more1) :: ps := by rw [hc1]
     have hl1 : c1.lim ≤ 240 := by rw [hc1]; exact hl
     obtain ⟨ra', ns2, more2, seg2, segm2, hc', pv2, mono2, max2, sok2, bx2, es2, nf2, vm2⟩ :=
       ih (fun e he => hT e (by simp [he])) c1 c2 ss { sc with ra := ra1, syms := sc.syms ++ ns1 } rs (pool ++ more1) ps n2 cur env1 env' s1 s' vs'
-        hs1 hp1 hl1 htop hrest he2 es1
+        hs1 hp1 hl1 htop hm1 hrest he2 es1
     have mono2' : ∀ r, ra1.alloc r = true → ra'.alloc r = true := mono2
     have max2' : ra1.max ≤ ra'.max := max2
     have nf2' : ∀ d, ra1.alloc d = true → NoName c1.scopes d → NoName c2.scopes d := nf2
